@@ -328,6 +328,15 @@ def validate(run, case, model, lazy=True, cache=True, tables_from='model') -> Va
                 if v.impl_kind != 'async':
                     v.disc.append(dict(kind='model_err:asyncrefused', at=at, detail=r))
                 break
+        elif k == 'GETDATA':
+            _, sid, dest, attr = l
+            r = send(f"GETDATA {idx[sid]} {idx[dest] if dest in idx else 999}", at)
+            if r.startswith('asyncrefused'):
+                if v.impl_kind != 'async':
+                    v.disc.append(dict(kind='model_err:asyncrefused', at=at, detail=r + ' (get_data)'))
+                break
+        elif k == 'GOTDATA':
+            pass
         elif k == 'STEP':
             _, sid, rep = l
             if rep is None: r = send(f"STEP {idx[sid]} N", at)
